@@ -14,7 +14,11 @@ CHEAP = ["halton", "rseq", "uniform", "bestbatch", "pso", "cors"]
 ALL9 = CHEAP + ["rf", "xgb", "gp"]
 
 
-def make_sampler(kind, bs, seed):
+def make_sampler(kind, bs, seed, opts=None):
+    """opts (round 4, optional): None = the options used since round 1; "nondefault" = every public option of the class set to
+    a value different from its default (a checkpoint / reseed that rebuilds a sampler from its class loses them)."""
+    if opts == "nondefault":
+        return make_sampler_nondefault(kind, bs, seed)
     from black_it.samplers.best_batch import BestBatchSampler
     from black_it.samplers.cors import CORSSampler
     from black_it.samplers.gaussian_process import GaussianProcessSampler
@@ -43,6 +47,41 @@ def make_sampler(kind, bs, seed):
         return XGBoostSampler(batch_size=bs, random_state=seed, candidate_pool_size=40, n_estimators=4, max_depth=2)
     if kind == "gp":
         return GaussianProcessSampler(batch_size=bs, random_state=seed, candidate_pool_size=40, optimize_restarts=1)
+    raise ValueError(kind)
+
+
+def make_sampler_nondefault(kind, bs, seed):
+    from black_it.samplers.best_batch import BestBatchSampler
+    from black_it.samplers.cors import CORSSampler
+    from black_it.samplers.gaussian_process import GaussianProcessSampler
+    from black_it.samplers.halton import HaltonSampler
+    from black_it.samplers.particle_swarm import ParticleSwarmSampler
+    from black_it.samplers.r_sequence import RSequenceSampler
+    from black_it.samplers.random_forest import RandomForestSampler
+    from black_it.samplers.random_uniform import RandomUniformSampler
+    from black_it.samplers.xgboost import XGBoostSampler
+
+    if kind == "halton":
+        return HaltonSampler(batch_size=bs, random_state=seed, max_deduplication_passes=2)
+    if kind == "rseq":
+        return RSequenceSampler(batch_size=bs, random_state=seed, max_deduplication_passes=2)
+    if kind == "uniform":
+        return RandomUniformSampler(batch_size=bs, random_state=seed, max_deduplication_passes=1)
+    if kind == "bestbatch":
+        return BestBatchSampler(batch_size=bs, random_state=seed, max_deduplication_passes=3, a=1.5, b=2.0, perturbation_range=12)
+    if kind == "pso":
+        return ParticleSwarmSampler(batch_size=bs, random_state=seed, inertia=0.6, c1=0.4, c2=0.7, global_minimum_across_samplers=True)
+    if kind == "cors":
+        return CORSSampler(batch_size=bs, max_samples=25, rho0=0.3, p=2.0, random_state=seed)
+    if kind == "rf":
+        return RandomForestSampler(batch_size=bs, random_state=seed, max_deduplication_passes=2, candidate_pool_size=30, n_estimators=5,
+                                   criterion="entropy", n_classes=4)
+    if kind == "xgb":
+        return XGBoostSampler(batch_size=bs, random_state=seed, max_deduplication_passes=2, candidate_pool_size=30, colsample_bytree=0.9,
+                              learning_rate=0.3, max_depth=3, alpha=0.5, n_estimators=6)
+    if kind == "gp":
+        return GaussianProcessSampler(batch_size=bs, random_state=seed, max_deduplication_passes=2, candidate_pool_size=30,
+                                      optimize_restarts=2, acquisition="mean", jitter=0.3)
     raise ValueError(kind)
 
 
@@ -88,20 +127,89 @@ def small_model(theta, N, seed):  # noqa: N803
     return 0.01 * ar1_model(theta, N, seed)
 
 
-MODELS = {"ar1_model": ar1_model, "nan_model": nan_model, "mut_model": mut_model, "small_model": small_model}
+def uneven_model(theta, N, seed):  # noqa: N803
+    """a model whose running time depends on the run (as every real simulator's does): with several workers the runs of a batch
+    complete in an order other than the one they were dispatched in"""
+    import time
+
+    time.sleep(0.06 if seed % 3 == 0 else (0.02 if seed % 3 == 1 else 0.0))
+    return ar1_model(theta, N, seed)
 
 
-def build(spec, folder=None, ctor_seed_shift=0, n_jobs=1, verbose=False):
-    """spec = {kinds: [(kind, bs)], nparams, E, seed, loss, rl: bool}"""
+def f32_model(theta, N, seed):  # noqa: N803
+    """returns a float32, Fortran-ordered, non-contiguous, read-only view (a simulator wrapped from single-precision code)"""
+    x = np.asfortranarray(np.repeat(ar1_model(theta, N, seed), 2, axis=1).astype(np.float32))[:, ::2]
+    x.setflags(write=False)
+    return x
+
+
+def list_model(theta, N, seed):  # noqa: N803
+    """returns nested Python lists"""
+    return ar1_model(theta, N, seed).tolist()
+
+
+def wide_model(theta, N, seed):  # noqa: N803
+    """series whose scale spans six hundred orders of magnitude over the parameter space (finite: scipy's distances reject
+    infinities): losses from O(1) to 1e300, all legitimate float values that a checkpoint has to carry"""
+    e = int(round(float(np.sin(7.0 * float(theta[0]))) * 300))          # -300 .. 300 over any parameter range wider than 1
+    return ar1_model(theta, N, seed) * (10.0 ** e)
+
+
+MODELS = {"ar1_model": ar1_model, "nan_model": nan_model, "mut_model": mut_model, "small_model": small_model,
+          "uneven_model": uneven_model, "f32_model": f32_model, "list_model": list_model, "wide_model": wide_model}
+
+
+def make_loss_variant(kind, variant):
+    """Loss objects with NON-default options (round 4): a checkpoint that re-creates the loss from its class loses them."""
+    from black_it.loss_functions.fourier import FourierLoss
+    from black_it.loss_functions.gsl_div import GslDivLoss
+    from black_it.loss_functions.likelihood import LikelihoodLoss
+    from black_it.loss_functions.minkowski import MinkowskiLoss
+    from black_it.loss_functions.msm import MethodOfMomentsLoss
+
+    if variant != "nondefault":
+        raise ValueError(variant)
+    if kind == "minkowski":
+        return MinkowskiLoss(p=1, coordinate_weights=np.array([0.25, 3.0]))
+    if kind == "msm":
+        return MethodOfMomentsLoss(coordinate_weights=np.array([2.0, 0.5]))
+    if kind == "fourier":
+        return FourierLoss(f=0.5, coordinate_weights=np.array([0.25, 3.0]))
+    if kind == "gsl":
+        return GslDivLoss(nb_values=6, nb_word_lengths=3, coordinate_weights=np.array([0.25, 3.0]))
+    if kind == "likelihood":
+        return LikelihoodLoss(h=0.7)
+    raise ValueError(kind)
+
+
+HOOKS = {}
+"""name -> callable, registered by the props modules (round 4).  Three kinds of hook can be named in build(..., hooks={...}):
+"samplers": f(list of samplers, spec) -> list      (e.g. samplers that were used before, attributes reassigned)
+"args":     f(dict of Calibrator keyword arguments, spec) -> dict   (e.g. the same values in another representation)
+"cal":      f(calibrator, spec) -> None             (e.g. attributes assigned after construction)
+Hooks are referred to by NAME so that a replay file (JSON) can carry them."""
+
+
+def build(spec, folder=None, ctor_seed_shift=0, n_jobs=1, verbose=False, hooks=None):
+    """spec = {kinds: [(kind, bs)], nparams, E, seed, loss, rl: bool}
+    optional keys (round 4; absent = the behaviour of rounds 1-3): precision (list), sim_length, conv_prec, sampler_opts,
+    loss_variant, sched_seed (an explicitly constructed scheduler with its own constructor seed), data_len."""
     from black_it.calibrator import Calibrator
 
-    samplers = [make_sampler(k, bs, (1000 + 7 * i + ctor_seed_shift) if ctor_seed_shift is not None else None)
+    hooks = hooks or {}
+    samplers = [make_sampler(k, bs, (1000 + 7 * i + ctor_seed_shift) if ctor_seed_shift is not None else None, *(
+                [spec["sampler_opts"]] if spec.get("sampler_opts") else []))
                 for i, (k, bs) in enumerate(spec["kinds"])]
+    if hooks.get("samplers"):
+        samplers = HOOKS[hooks["samplers"]](samplers, spec)
     npar = spec["nparams"]
     bounds = spec.get("bounds") or [[-0.9] + [0.0] * (npar - 1), [0.9] + [1.0] * (npar - 1)]
-    prec = [0.01] * npar
-    real = MODELS["small_model" if spec.get("model") == "small_model" else "ar1_model"]([0.5] + [0.3] * (npar - 1), 24, 12345)
+    prec = spec.get("precision") or [0.01] * npar
+    real = MODELS["small_model" if spec.get("model") == "small_model" else "ar1_model"]([0.5] + [0.3] * (npar - 1), spec.get("data_len", 24), 12345)
     kw = {}
+    sched_seed = None
+    if spec.get("sched_seed") is not None and ctor_seed_shift is not None:
+        sched_seed = spec["sched_seed"] + ctor_seed_shift
     if spec.get("rl"):
         from black_it.schedulers.rl.agents.epsilon_greedy import MABEpsilonGreedy
         from black_it.schedulers.rl.envs.mab import MABCalibrationEnv
@@ -110,14 +218,26 @@ def build(spec, folder=None, ctor_seed_shift=0, n_jobs=1, verbose=False):
         has_h = any(k == "halton" for k, _ in spec["kinds"])
         n_act = len(samplers) + (0 if has_h else 1)
         agent = MABEpsilonGreedy(n_actions=n_act, alpha=0.1, eps=spec.get("eps", 0.2), initial_values=1.0, random_state=(3 + ctor_seed_shift) if ctor_seed_shift is not None else None)
-        kw["scheduler"] = RLScheduler(samplers, agent, MABCalibrationEnv(n_act))
+        kw["scheduler"] = RLScheduler(samplers, agent, MABCalibrationEnv(n_act), *([sched_seed] if spec.get("sched_seed") is not None else []))
+    elif spec.get("sched_seed") is not None:
+        from black_it.schedulers.round_robin import RoundRobinScheduler
+
+        kw["scheduler"] = RoundRobinScheduler(samplers, random_state=sched_seed)
     else:
         kw["samplers"] = samplers
+    loss = make_loss_variant(spec["loss"], spec["loss_variant"]) if spec.get("loss_variant") else make_loss(spec["loss"])
+    args = dict(loss_function=loss, real_data=real, model=MODELS[spec.get("model", "ar1_model")],
+                parameters_bounds=bounds, parameters_precision=prec, ensemble_size=spec["E"],
+                convergence_precision=spec.get("conv_prec"), verbose=verbose, saving_folder=folder, random_state=spec["seed"],
+                n_jobs=n_jobs, **kw)
+    if spec.get("sim_length") is not None:
+        args["sim_length"] = spec["sim_length"]
+    if hooks.get("args"):
+        args = HOOKS[hooks["args"]](args, spec)
     with contextlib.redirect_stdout(io.StringIO()):
-        cal = Calibrator(loss_function=make_loss(spec["loss"]), real_data=real, model=MODELS[spec.get("model", "ar1_model")],
-                         parameters_bounds=bounds, parameters_precision=prec, ensemble_size=spec["E"],
-                         convergence_precision=None, verbose=verbose, saving_folder=folder, random_state=spec["seed"],
-                         n_jobs=n_jobs, **kw)
+        cal = Calibrator(**args)
+    if hooks.get("cal"):
+        HOOKS[hooks["cal"]](cal, spec)
     return cal
 
 
@@ -133,17 +253,24 @@ def diff(a, b):
     return [k for k in a if a[k] != b[k]]
 
 
-def run_segments(spec, segments, boundaries, folder=None, **kw):
-    """Run calibrate(seg) for each segment; boundary i in {'plain','restore'} separates segment i and i+1."""
+def run_segments(spec, segments, boundaries, folder=None, lead_restore=False, **kw):
+    """Run calibrate(seg) for each segment; boundary i in {'plain','restore','restore_auto'} separates segment i and i+1.
+    lead_restore (round 4, optional): the freshly built calibrator is checkpointed and restored before its first batch."""
     from black_it.calibrator import Calibrator
 
     cal = build(spec, folder=folder, **kw)
     ret = None
     with contextlib.redirect_stdout(io.StringIO()), np.errstate(all="ignore"):
+        if lead_restore:
+            cal.create_checkpoint(folder)
+            cal = Calibrator.restore_from_checkpoint(folder, model=MODELS[spec.get("model", "ar1_model")])
         for i, seg in enumerate(segments):
             ret = cal.calibrate(seg)
-            if i < len(boundaries) and boundaries[i] == "restore":
-                cal.create_checkpoint(folder)
+            if i < len(boundaries) and boundaries[i] in ("restore", "restore_auto"):
+                # "restore_auto" (round 4): no explicit create_checkpoint - the run is resumed from what calibrate() itself left
+                # in its saving folder after the last completed batch (the process died, or was simply stopped, there)
+                if boundaries[i] == "restore":
+                    cal.create_checkpoint(folder)
                 cal = Calibrator.restore_from_checkpoint(folder, model=MODELS[spec.get("model", "ar1_model")])
     h = history(cal)
     h["ret"] = (ret[0].tobytes(), ret[1].tobytes()) if ret is not None else None
